@@ -51,12 +51,17 @@ fn main() {
         }
         "one" => {
             let prop = args.get(2).expect("property id");
-            let idx: u64 = args.get(3).and_then(|s| s.parse().ok()).unwrap_or(0);
+            let idx_arg = args.get(3).cloned().unwrap_or_default();
+            let raw_seed: Option<u64> = idx_arg.strip_prefix("seed=").and_then(|s| s.parse().ok());
+            let idx: u64 = idx_arg.parse().unwrap_or(0);
             let variant = args.get(4).cloned().unwrap_or_else(|| "random".into());
             match scen::get(prop) {
                 Some(def) => {
                     let co = coord::Coord::new(def, "quick", seed);
                     let mut spec = co.spec(idx, &variant);
+                    if let Some(rs) = raw_seed {
+                        spec.seed = rs;
+                    }
                     spec.want_trace = true;
                     let outs = co.exec(&[spec], false);
                     if let Some(o) = &outs[0] {
